@@ -43,6 +43,35 @@ const FAMILIES: &[Family] = &[
     Family { name: "commands", gen: commands::gen, exec: commands::exec },
 ];
 
+/// A subscriber that enables every span and event and throws them away: with it installed every
+/// `trace!`/`debug!` call site in the crates is ENABLED, so the expressions in their field lists
+/// are evaluated (with no subscriber they are skipped, and a panic in one of them would only show
+/// up in an application that logs).
+struct Sink;
+
+impl tracing::Subscriber for Sink {
+    fn enabled(&self, _: &tracing::Metadata<'_>) -> bool {
+        true
+    }
+    fn new_span(&self, _: &tracing::span::Attributes<'_>) -> tracing::span::Id {
+        tracing::span::Id::from_u64(1)
+    }
+    fn record(&self, _: &tracing::span::Id, _: &tracing::span::Record<'_>) {}
+    fn record_follows_from(&self, _: &tracing::span::Id, _: &tracing::span::Id) {}
+    fn event(&self, e: &tracing::Event<'_>) {
+        // format every field, as a logging subscriber would
+        struct V;
+        impl tracing::field::Visit for V {
+            fn record_debug(&mut self, _: &tracing::field::Field, v: &dyn std::fmt::Debug) {
+                let _ = format!("{v:?}");
+            }
+        }
+        e.record(&mut V);
+    }
+    fn enter(&self, _: &tracing::span::Id) {}
+    fn exit(&self, _: &tracing::span::Id) {}
+}
+
 fn main() {
     let args: Vec<String> = std::env::args().collect();
     if args.len() < 2 {
@@ -54,6 +83,7 @@ fn main() {
         std::process::exit(2)
     });
     let mut cfg = Cfg { seed: 1, thorough: false, prop: String::new(), n: None };
+    let _ = tracing::subscriber::set_global_default(Sink);
     let mut replay: Vec<String> = Vec::new();
     let mut only_replay = false;
     let mut i = 2;
